@@ -6,8 +6,24 @@ use tree_sitter::{CaptureQuantifier, Query, QueryCursor, Tree};
 use tree_sitter_graph::ast::*;
 use tree_sitter_graph::Location;
 
+thread_local! {
+    /// when set, every location is exported as (0 0): AST comparison modulo layout
+    pub static NO_LOC: std::cell::Cell<bool> = std::cell::Cell::new(false);
+}
+
 pub fn loc(l: &Location) -> Sexp {
+    if NO_LOC.with(|c| c.get()) {
+        return sexp::list(vec![sexp::nat(0), sexp::nat(0)]);
+    }
     sexp::list(vec![sexp::nat(l.row), sexp::nat(l.column)])
+}
+
+/// the exported AST with every location erased
+pub fn file_no_loc(f: &File) -> Sexp {
+    NO_LOC.with(|c| c.set(true));
+    let s = file(f);
+    NO_LOC.with(|c| c.set(false));
+    s
 }
 
 pub fn quant(q: CaptureQuantifier) -> Sexp {
